@@ -2,7 +2,8 @@
 (* All definitions of N object types with <= MaxFields fields each. *)
 EXTENDS Derives, Json, IOUtils
 CONSTANTS N, MaxFields, EmitMod,
-          WarmInSeedOrder    \* TRUE: the cache is warmed in an order drawn from the hash seed (regression; must break Functional)
+          WarmInSeedOrder,   \* TRUE: the cache is warmed in an order drawn from the hash seed (regression; must break Functional)
+          GenInSeedOrder     \* TRUE: the objects are generated in an order drawn from the hash seed (regression; must break Functional)
 VARIABLES def, phase
 vars == <<def, phase>>
 EmitRes == IF "EMITRES" \in DOMAIN IOEnv THEN atoi(IOEnv.EMITRES) % EmitMod ELSE 0
@@ -20,7 +21,9 @@ Sel == Selection(def, <<>>)
 PlainIsValidInv == phase = "done" => \A w \in WarmOrders : PlainIsValid(def, Selection(def, w))
 EduceIfDirectInv == phase = "done" => \A w \in WarmOrders : EduceIfDirect(def, Selection(def, w))
 NoSpuriousEduceInv == phase = "done" => \A w \in WarmOrders : NoSpuriousEduce(def, Selection(def, w))
-Functional == phase = "done" => \A w1, w2 \in WarmOrders : Selection(def, w1) = Selection(def, w2)
+GenOrders == IF GenInSeedOrder THEN {[i \in 1..N |-> p[i]] : p \in Perms} ELSE {[i \in 1..N |-> i]}
+Functional == phase = "done" => /\ \A w1, w2 \in WarmOrders : Selection(def, w1) = Selection(def, w2)
+                                /\ \A g \in GenOrders : SelectionIn(def, g) = Sel
 (* documentation of the order dependence: some definition and two IR orders of it give different selections for the same type.
    Checked as a property that MUST be violated (config `orderdep`): the provisional entry makes the memo order dependent. *)
 Swap(d) == [i \in 1..N |-> LET src == IF i = 1 THEN 2 ELSE IF i = 2 THEN 1 ELSE i IN
